@@ -176,6 +176,17 @@ Definition utc2tai_list (tbl : list row) (xs : list Q) : list Q :=
   let deltas := map (fun p => delta_d (nth (snd p) tbl dummy_row) (fst p)) (combine xs idx) in
   map (fun p => (fst p + snd p)%Q) (combine xs deltas).
 Definition to_scale_list (a b : string) (xs : list Q) : list (option Q) := map (to_scale a b) xs.
+(* the tai branch of delta_tai_utc on arrays: index list, delta, provisional UTC array, second index list, second delta *)
+Definition tai2utc_list (tbl : list row) (xs : list Q) : list Q :=
+  let idx := map (argmax_row tbl) xs in
+  let delta := map (fun p => delta_d (nth (snd p) tbl dummy_row) (fst p)) (combine xs idx) in
+  let tmp := map (fun p => (fst p - snd p)%Q) (combine xs delta) in
+  let idx2 := map (argmax_row tbl) tmp in
+  let delta2 := map (fun p => delta_d (nth (snd p) tbl dummy_row) (fst p)) (combine tmp idx2) in
+  map (fun p => (fst p + - snd p)%Q) (combine xs delta2).
+(* taking the elements of xs in the order given by a list of indices (a permutation, a selection, repetitions) *)
+Definition take_idx {A} (d : A) (xs : list A) (perm : list nat) : list A := map (fun i => nth i xs d) perm.
+
 
 (* ------------------------------------------------------------------ domain of the round-trip theorems *)
 Open Scope Q_scope.
@@ -233,6 +244,25 @@ Fixpoint pairs_ok (l : list row) : bool :=
 
 Definition adjacent (tbl : list row) (r n : row) : Prop := exists l1 l2, tbl = (l1 ++ r :: n :: l2)%list.
 Definition last_row (tbl : list row) : row := last tbl dummy_row.
+
+(* the domain of the round-trip / path-independence theorems as a computable predicate on a UTC Julian date u:
+   u lies in a row r of the table and
+   - r has a successor n: start_r + guard_r <= u < end_r - skip r n - guard_r  (guard = 1 us on the pre-1972 drift rows, 0 on
+     the leap-second rows; skip = the UTC labels that never existed because TAI-UTC stepped down: 0.05 s before 1961-08-01,
+     0.1 s before 1968-02-01, 3.7 ns before 1962-01-01, nothing else), and the row-pair side conditions hold;
+   - r is the open last row: u at least one day before its end (9999-12-31). *)
+Definition utc_ok_in (tbl : list row) (u : Q) : bool :=
+  let i := argmax_row tbl u in
+  match nth_error tbl i with
+  | None => false
+  | Some r =>
+      in_row u r &&
+      match nth_error tbl (S i) with
+      | Some n => row_rt_ok r n && Qle_bool (r_start r + guard r) u && Qlt_b u (r_end r - skip r n - guard r)
+      | None => row_self_ok r && is_const r && Qlt_b (u + 1) (r_end r) && Qlt_b (dmax r) 1
+      end
+  end.
+Definition utc_ok (u : Q) : bool := utc_ok_in table u.
 
 (* well-formedness of the table (computed on the regenerated table) *)
 Fixpoint chain_ok (prev_end : Q) (l : list row) : bool :=
